@@ -306,6 +306,9 @@ def assemble(unit_cfg, src="/repo/src"):
     bu = unit_cfg.get("broadcast_use", ["ty::typing", "ax::float_real"])
     out.add("broadcast use {%s};\n" % ", ".join(bu))
 
+    for tname in unit_cfg.get("external_clone", []):
+        # A2: the derived Clone returns an equal value
+        out.add("pub assume_specification[ <%s as Clone>::clone ](x: &%s) -> (r: %s) ensures r == *x;\n" % (tname, tname, tname))
     for p in unit_cfg.get("spec", []):
         out.add("// ---- %s\n" % p)
         base = out.line
@@ -321,6 +324,10 @@ def assemble(unit_cfg, src="/repo/src"):
         fninfo = {f["idx"]: f for f in it["fns"]}
         item_first_line = out.line
         out.add("// ==== %s %s  (%s:%d)\n" % (it["kind"], it["key"], it["file"], it["line"]))
+        if it["kind"] in ("struct", "enum") and it["key"] in unit_cfg.get("external_clone", []):
+            # the derived Clone of this type is left outside Verus (erased attribute); its assumed specification
+            # `r == *self` is emitted with the prelude and listed by the assumption scan
+            out.add("#[verifier::external_derive(Clone)]\n")
         side["items"].append({"kind": it["kind"], "key": it["key"], "file": it["file"], "line": it["line"], "fns": [f["key"] for f in it["fns"]]})
         pos = 0
         fn_starts = {}
